@@ -17,6 +17,7 @@ EMBEDS it (`Emb mc base bytes mem0`: base and length words of the module context
 * `frontmem_confined` (C02 through the front end): every memory access of the SSA run — stores and loads, also those
   whose bounds check was ELIDED by the known-safe-bound cache — lies inside `[base, base + size)`, except the loads of
   the two module-context words; stores are always inside.
+* `frontmem_writes_confined`: the final memory is the initial one with writes prepended, all inside `[base, base+size)`.
 * `frontmem_conservative`: on functions without memory instructions `lowerMem` is `FrontendSL.lowerSL`.
 * `frontmem_opt_validated` (and `frontmem_dce_validated`), `frontmem_then_passes_refines`: a verified CHECKER of the
   passes' result (no-op shifts → aliases, alias resolution, dead code; translation validation: the harness runs it on
@@ -33,6 +34,7 @@ import Wz.Proofs.C01_FrontMem_Elide
 import Wz.Proofs.C01_FrontMem_WF
 import Wz.Proofs.C01_FrontMem_Dce
 import Wz.Proofs.C01_FrontMem_Opt
+import Wz.Proofs.C01_FrontMem_Writes
 
 namespace Wz.C01
 open Wz.Spec Wz.Model.SsaPass Wz.Model.FrontendSL Wz.Model.FrontendMem Wz.Proofs.FrontMem
@@ -60,6 +62,20 @@ theorem frontmem_stores_confined (f : FnM) (hwt : wellTypedM f = true) (args : L
   rcases frontmem_confined f hwt args hargs w ec mc base bytes mem0 hemb a ha with h | h
   · simpa [Acc.inside] using h
   · simp [Acc.isCtxRead, hs] at h
+
+/-- **Every byte the compiled code writes lies inside `[base, base + size)`**, stated on the memory itself: the final
+flat memory (of a run that returns or traps) is the initial memory with a list `W` of writes prepended, and every
+written address is inside the linear memory.  (The SSA memory is a write log, so `W` IS the list of all writes.) -/
+theorem frontmem_writes_confined (f : FnM) (hwt : wellTypedM f = true) (args : List Nat) (hargs : ArgsOK f.sig args)
+    (w : World) (ec mc base : Nat) (bytes : ByteArray) (mem0 : Mem) (hemb : Emb mc base bytes mem0) (mem' : Mem)
+    (h : finalMem (runM w (lowerMem f) (ec :: mc :: args) mem0).1 = some mem') :
+    ∃ W, mem' = W ++ mem0 ∧ ∀ p ∈ W, base ≤ p.1 ∧ p.1 < base + bytes.size := by
+  obtain ⟨W, e, c⟩ := lowerMem_writes w f (ec :: mc :: args) mem0 mem' h
+  refine ⟨W, e, ?_⟩
+  intro p hp
+  obtain ⟨a, ha, hs, h1, h2⟩ := c p hp
+  have := frontmem_stores_confined f hwt args hargs w ec mc base bytes mem0 hemb a ha hs
+  omega
 
 /-- **The hypothesis is satisfiable for every memory**: the canonical embedding (the two context words, the non-zero
 bytes) of any linear memory below 4 GiB, placed anywhere without overlap and wrap-around, is an embedding. -/
